@@ -62,7 +62,7 @@ def run(ctx):
     else:
         r = RULES[ctx.seed % 4]
         plans = [([r], [0, 3] if r in ("pre158", "eip158") else [0, 2, 3], 0)]
-        plans.append(([RULES[(ctx.seed + 2) % 4]], [1] if ctx.seed % 2 else [2], 1))
+        plans.append(([RULES[1 + ctx.seed % 3]], [1, 2], 1))      # 0x03 touch quirk needs EIP-158 rules
     for i, (rules, bases, ripemd) in enumerate(plans):
         cfg = edges_cfg(ctx, rules, bases, ripemd, "edges%d" % i)
         res = ctx.model_check("state/MCStateDB", cfg, tags=("EDGE",), timeout=ctx.pick(1800, 3600),
